@@ -95,6 +95,8 @@ func Known(property string) map[string]string {
 func Report(property string, findings []Finding) (exit int, unknown int) {
 	known := Known(property)
 	seenKnown := map[string]bool{}
+	perKey := map[string]int{}
+	var order []string
 	for _, f := range findings {
 		if desc, ok := known[f.Key]; ok {
 			if !seenKnown[f.Key] {
@@ -104,10 +106,10 @@ func Report(property string, findings []Finding) (exit int, unknown int) {
 			continue
 		}
 		unknown++
-		if unknown <= 10 {
-			fmt.Printf("VIOLATION property=%s replay=%s\n", property, f.Replay)
-			fmt.Printf("  key=%s\n  %s\n", f.Key, strings.ReplaceAll(f.Msg, "\n", "\n  "))
+		if perKey[f.Key] == 0 {
+			order = append(order, f.Key)
 		}
+		perKey[f.Key]++
 	}
 	var unseen []string
 	for k := range known {
@@ -119,8 +121,23 @@ func Report(property string, findings []Finding) (exit int, unknown int) {
 	for _, k := range unseen {
 		fmt.Printf("KNOWN-FINDING: property=%s key=%s %s (listed; not reached by this run)\n", property, k, known[k])
 	}
-	if unknown > 10 {
-		fmt.Printf("... and %d more violations of %s (replay files under %s/replays)\n", unknown-10, property, Root())
+	// every distinct key is shown (up to 2 cases each, 40 lines in all)
+	shown := map[string]int{}
+	lines := 0
+	for _, f := range findings {
+		if _, ok := known[f.Key]; ok {
+			continue
+		}
+		if shown[f.Key] >= 2 || lines >= 40 {
+			continue
+		}
+		shown[f.Key]++
+		lines++
+		fmt.Printf("VIOLATION property=%s replay=%s\n", property, f.Replay)
+		fmt.Printf("  key=%s (%d case(s) with this key)\n  %s\n", f.Key, perKey[f.Key], strings.ReplaceAll(f.Msg, "\n", "\n  "))
+	}
+	if unknown > lines {
+		fmt.Printf("... and %d more violations of %s over %d distinct key(s) (replay files under %s/replays)\n", unknown-lines, property, len(order), Root())
 	}
 	if unknown > 0 {
 		return 1, unknown
